@@ -22,7 +22,7 @@ pub enum Op {
 #[cfg(not(feature = "op"))]
 const SPECS: [SpecId; 3] = [SpecId::LONDON, SpecId::SHANGHAI, SpecId::CANCUN];
 #[cfg(feature = "op")]
-const SPECS: [SpecId; 3] = [SpecId::BEDROCK, SpecId::ECOTONE, SpecId::HOLOCENE];
+const SPECS: [SpecId; 3] = [SpecId::BEDROCK, SpecId::ECOTONE, SpecId::ISTHMUS];
 
 type E = Evm<'static, (), CacheDB<EmptyDB>>;
 pub struct S {
@@ -68,9 +68,13 @@ fn l1_block_db(mut db: CacheDB<EmptyDB>) -> CacheDB<EmptyDB> {
     use revm::optimism::L1_BLOCK_CONTRACT;
     // non-zero L1 parameters so that the L1 fee and operator fee vaults would be paid
     db.insert_account_info(L1_BLOCK_CONTRACT, revm::primitives::AccountInfo::default());
-    for (slot, v) in [(1u64, 1_000u64), (5, 100), (6, 2), (7, 3), (3, 0), (8, 0)] {
+    for (slot, v) in [(1u64, 1_000u64), (5, 100), (6, 2), (7, 3)] {
         db.insert_account_storage(L1_BLOCK_CONTRACT, U256::from(slot), U256::from(v)).unwrap();
     }
+    // Ecotone scalars (base fee scalar 7 at byte 16, blob base fee scalar 9 at byte 20) and Isthmus operator
+    // fee parameters (scalar 500000 at byte 20, constant 1000 at byte 24), so that every vault would be paid
+    db.insert_account_storage(L1_BLOCK_CONTRACT, U256::from(3), (U256::from(7) << 96) | (U256::from(9) << 64)).unwrap();
+    db.insert_account_storage(L1_BLOCK_CONTRACT, U256::from(8), (U256::from(500_000) << 64) | U256::from(1000)).unwrap();
     db
 }
 
